@@ -220,12 +220,12 @@ def reservation(cfg, m):
     return res
 
 
-def remaining_reservations(w, infos):
+def remaining_reservations(w, infos, upto=None):
     """Reservation table: reserve at acceptance, subtract min(spent, remaining) per fill (from the order events), zero at
-    closure."""
+    closure. upto: only the first `upto` order events are considered (the table as it was at that point)."""
     cfg = w.cfg
     events = collections.defaultdict(list)
-    for ev in w.evq:
+    for ev in (w.evq if upto is None else w.evq[:upto]):
         events[ev.order.id].append(ev.order)
     table = {}
     for k, oid in enumerate(w.ids):
@@ -320,7 +320,15 @@ def m_liquidity_precision(tr):
         _, pi, si = tr.a
         volume = D(SHAPES[si][4]) * D(1).scaleb(-bp)
         budget = volume * D(str(cfg["liq"][0])) / 100
+        o_, h_, l_, c_ = (D(x) for x in SHAPES[si][:4])
+        p = PAIRS[pi]
         used = ZERO
+        # state of the account when each order's turn comes, reconstructed from public information (no lending: closing
+        # an order has no side effect but the release of its own hold)
+        sequential = not cfg.get("lend")
+        table = remaining_reservations(w, tr.before.orders, upto=tr.before.nevents) if sequential else {}
+        bal = {s_: b[0] + b[1] for s_, b in tr.before.bal.items()}
+        hold = {s_: b[1] for s_, b in tr.before.bal.items()}
         for k, oid in enumerate(w.ids):  # turn order = acceptance order
             pb = tr.before.orders.get(oid)
             info = tr.after.orders.get(oid)
@@ -328,12 +336,57 @@ def m_liquidity_precision(tr):
             if pb is None or info is None or not pb.is_open or m["pair"] != pi:
                 continue
             db = info.amount_filled - pb.amount_filled
+            dq = info.quote_amount_filled - pb.quote_amount_filled
+            df = sum(info.fees.values(), ZERO) - sum(pb.fees.values(), ZERO)
             if m["kind"] in ("mkt", "stp"):
-                fits = (m["amt"] - pb.amount_filled) <= budget - used
+                remaining = m["amt"] - pb.amount_filled
+                fits = remaining <= budget - used
                 if not fits and db > 0:
                     bad.append(("fill-beyond-liquidity", f"{m['kind']} order {k} of {m['amt']} filled with only "
                                 f"{budget - used} left in the bar"))
+                triggered = m["kind"] == "mkt" or (m["side"] == "B" and h_ >= m["stp"]) or (m["side"] == "S" and l_ <= m["stp"])
+                if fits and triggered and db == 0 and sequential and remaining > 0:
+                    own = table.get(oid, {})
+                    if m["side"] == "B":
+                        cost = q(remaining * h_, qp, ROUND_UP)  # upper bound of the cost: the bar's high
+                        fee = ZERO
+                        if cfg.get("fee") is not None:
+                            fee = q(max(cost * D(str(cfg["fee"][0])) / 100, D(str(cfg["fee"][1]))), qp, ROUND_UP)
+                        qs = p.quote_symbol
+                        spend = cost + fee
+                        after_bal = bal.get(qs, ZERO) - spend
+                        after_hold = hold.get(qs, ZERO) - min(spend, own.get(qs, ZERO))
+                        affordable = after_bal >= 0 and after_hold <= after_bal
+                    else:
+                        bs_ = p.base_symbol
+                        after_bal = bal.get(bs_, ZERO) - remaining
+                        after_hold = hold.get(bs_, ZERO) - min(remaining, own.get(bs_, ZERO))
+                        proceeds = q(remaining * l_, qp)
+                        fee = ZERO
+                        if cfg.get("fee") is not None:
+                            fee = q(max(proceeds * D(str(cfg["fee"][0])) / 100, D(str(cfg["fee"][1]))), qp, ROUND_UP)
+                        affordable = after_bal >= 0 and after_hold <= after_bal and proceeds > 0 and (
+                            fee <= proceeds or bal.get(p.quote_symbol, ZERO) - hold.get(p.quote_symbol, ZERO)
+                            + own.get(p.quote_symbol, ZERO) >= fee - proceeds)
+                    if affordable:
+                        bad.append(("fit-but-not-filled", f"{m['kind']} order {k} of {remaining} was not filled although "
+                                    f"{budget - used} of the bar's liquidity was left and funds sufficed"))
             used += db
+            if sequential:
+                sign = 1 if m["side"] == "B" else -1
+                bal[p.base_symbol] = bal.get(p.base_symbol, ZERO) + sign * db
+                bal[p.quote_symbol] = bal.get(p.quote_symbol, ZERO) - sign * dq - df
+                own = table.get(oid, {})
+                if not info.is_open:
+                    for s_, v in own.items():
+                        hold[s_] = hold.get(s_, ZERO) - v
+                elif db > 0:
+                    spent = {p.quote_symbol: dq + df} if m["side"] == "B" else {p.base_symbol: db}
+                    if m["side"] == "S" and df > dq:
+                        spent[p.quote_symbol] = df - dq
+                    for s_, v in spent.items():
+                        if v > 0 and own.get(s_, ZERO) > 0:
+                            hold[s_] = hold.get(s_, ZERO) - min(v, own[s_])
         if used > budget:
             bad.append(("liquidity-exceeded", f"{used} filled in a bar whose liquidity is {budget} "
                         f"({cfg['liq'][0]}% of {volume})"))
